@@ -344,8 +344,8 @@ def part_a(ctx, rng):
                          what=f"{name}: the canonical 0/1 run raises", detector=name, pairs=pairs[:len(base)], impl=base[-1])
                 continue
             for ei, (ename, enc) in enumerate(encs):
-                if ctx.quick and mode == "agreement" and (ei + k) % 3 == 0:
-                    continue        # quick tier: every sequence runs two thirds of the encodings (rotating), budget ~70 s
+                if ctx.quick and mode == "agreement" and (ei + k) % 2 == 0:
+                    continue        # quick tier: every sequence runs half of the encodings (alternating), budget ~60 s
                 r = np.random.default_rng([ctx.seed, k, len(ename)])
                 enc_pairs = [enc(yt, yp, r) for yt, yp in pairs]
                 tr = run_calls(make, [("update", p, {}) for p in enc_pairs], seeds)
